@@ -37,16 +37,17 @@ type StreamSpec struct {
 }
 
 type ReaderSpec struct {
-	Policy   string `json:"policy"` // full | one | fixed | random | allbutone | halves | straddle
-	Size     int    `json:"size"`
-	Seed     int64  `json:"seed"`
-	FailAt   int64  `json:"failAt"`   // byte offset at which the source fails (-1: never)
-	FailKind string `json:"failKind"` // eof | custom | partial | unexpected | temporary (error with Temporary() = true) | transient / temptransient (one failed Read, then the source recovers) | parttransient (one Read returns bytes AND an error, then the source recovers)
-	SeekAble bool   `json:"seekable"` // present the source as io.ReaderAt + io.Seeker too
-	DelayUs  int    `json:"delayUs"`  // random sleep (0..DelayUs) inside Read, after the bytes are taken
-	Splits   []int  `json:"splits"`   // policy "script": k-th Read returns Splits[k]/SplitC of a sample (TLC-simulated short reads)
-	SplitC   int    `json:"splitC"`
-	SampleB  int    `json:"sampleB"`
+	Policy      string `json:"policy"` // full | one | fixed | random | allbutone | halves | straddle
+	Size        int    `json:"size"`
+	Seed        int64  `json:"seed"`
+	FailAt      int64  `json:"failAt"`      // byte offset at which the source fails (-1: never)
+	FailKind    string `json:"failKind"`    // eof | custom | partial | unexpected | temporary (error with Temporary() = true) | transient / temptransient (one failed Read, then the source recovers) | parttransient (one Read returns bytes AND an error, then the source recovers)
+	EOFWithData bool   `json:"eofWithData"` // the Read that delivers the stream's last bytes returns io.EOF with them
+	SeekAble    bool   `json:"seekable"`    // present the source as io.ReaderAt + io.Seeker too
+	DelayUs     int    `json:"delayUs"`     // random sleep (0..DelayUs) inside Read, after the bytes are taken
+	Splits      []int  `json:"splits"`      // policy "script": k-th Read returns Splits[k]/SplitC of a sample (TLC-simulated short reads)
+	SplitC      int    `json:"splitC"`
+	SampleB     int    `json:"sampleB"`
 }
 
 type ItemPlan struct {
@@ -332,6 +333,10 @@ func (r *obsReader) Read(p []byte) (int, error) {
 		if n > 1 {
 			n = (n + 1) / 2
 		}
+	case "fullthenshort": // the first Read fills the buffer, every later one delivers about half of what is asked
+		if r.reads > 1 && n > 1 {
+			n = (n + 1) / 2
+		}
 	case "script":
 		if len(r.rs.Splits) > 0 && r.rs.SplitC > 0 && r.rs.SampleB > 0 {
 			k := r.rs.Splits[(r.reads-1)%len(r.rs.Splits)]
@@ -362,6 +367,9 @@ func (r *obsReader) Read(p []byte) (int, error) {
 			n = 0
 			err = io.EOF
 		}
+	}
+	if r.rs.EOFWithData && r.sp.Len >= 0 && n > 0 && r.off+int64(n) == r.sp.Len {
+		err = io.EOF // the last bytes arrive together with io.EOF (as iotest.DataErrReader and many real sources do)
 	}
 	// injected failure at byte offset FailAt
 	if r.rs.FailAt >= 0 && err == nil && r.rs.FailKind == "parttransient" {
@@ -516,6 +524,12 @@ func buildPlan(j *WJob, info fnInfo) [][]planned {
 			switch ip.QMode {
 			case "edge": // exactly on the lower edge of the bin: 0.0, 0.1, ... 0.9
 				q = float64(b) / 10
+			case "edgebelow": // a hair (1e-7) below the upper edge of the bin: rounding to six decimals would move it up
+				if b == 9 {
+					q = 0.95
+				} else {
+					q = float64(b+1)/10 - 1e-7
+				}
 			case "edgehi": // bin 9 as exactly 1.0, others just below the upper edge
 				if b == 9 {
 					q = 1.0
@@ -910,7 +924,10 @@ waitLoop:
 	res["numcpu"] = runtime.NumCPU()
 	res["gomaxprocs"] = runtime.GOMAXPROCS(0)
 	if j.Mode == "real" && !single && !hang && j.Stream.Len < 0 && !j.NoMatrix {
-		// the matrix the workflow must have seen: registry runners applied directly to each sample
+		realMatrix(j, info, names, res)
+	}
+	if false {
+		// (moved to realMatrix)
 		passM := make([][]bool, info.items)
 		qsM := make([][]string, info.items)
 		buf := make([]byte, info.sb)
@@ -987,6 +1004,64 @@ func compactEvents(ev []Event, info fnInfo) []Event {
 		open[k] = len(out) - 1
 	}
 	return out
+}
+
+// realMatrix: the matrix the workflow must have seen -- the registry runners applied directly to each sample of the stream
+func realMatrix(j *WJob, info fnInfo, names []randomness.TestItem, res map[string]interface{}) {
+	passM := make([][]bool, info.items)
+	qsM := make([][]string, info.items)
+	buf := make([]byte, info.sb)
+	for k := 0; k < info.items; k++ {
+		passM[k] = make([]bool, info.s)
+		qsM[k] = make([]string, info.s)
+	}
+	defer func() {
+		if p := recover(); p != nil {
+			res["matrix_panic"] = fmt.Sprint(p)
+		}
+	}()
+	for i := 0; i < info.s; i++ {
+		fillStream(&j.Stream, int64(i)*int64(info.sb), buf)
+		for k := 0; k < info.items; k++ {
+			r := names[k].Runner(buf)
+			passM[k][i] = r.Pass
+			qsM[k][i] = F(r.Q)
+		}
+	}
+	res["pass"] = passM
+	res["qs"] = qsM
+}
+
+// runWorkflowLite: one real-mode workflow call without the process-wide bookkeeping of runWorkflowJob, so that several
+// calls can overlap (two self-tests at once, or one started from inside another caller's code)
+func runWorkflowLite(j *WJob) map[string]interface{} {
+	res := map[string]interface{}{"id": j.ID, "fn": j.Fn, "tag": j.Tag, "mode": j.Mode, "hang": false, "leak": 0, "late": 0, "events": []Event{}}
+	info, ok := fnTable(j.Fn)
+	if !ok {
+		res["error"] = "unknown fn"
+		return res
+	}
+	rec := &recorder{}
+	rd := &obsReader{sp: &j.Stream, rs: &j.Reader, rng: rand.New(rand.NewSource(j.Reader.Seed)),
+		drng: rand.New(rand.NewSource(j.Reader.Seed + 7)), rec: rec}
+	names := randomness.TestMethodArr
+	func() {
+		defer func() {
+			if p := recover(); p != nil {
+				res["panic"] = fmt.Sprint(p)
+			}
+		}()
+		v, err := info.call(rd)
+		res["verdict"] = v
+		res["haserr"] = err != nil
+		res["named"] = namedItem(err, names)
+	}()
+	rd.mu.Lock()
+	res["consumed"] = rd.off
+	res["maxreq"] = rd.maxReq
+	rd.mu.Unlock()
+	res["s"], res["sb"], res["items"] = info.s, info.sb, info.items
+	return res
 }
 
 // runSingleLite: one SingleDetect call without the process-wide bookkeeping of runWorkflowJob (goroutine counts, registry
@@ -1070,6 +1145,43 @@ func workflowCmd(job []byte, out *Out) error {
 				wg.Wait()
 			}
 			for _, r := range results {
+				out.Emit(r)
+			}
+			out.Flush()
+			i = k - 1
+			continue
+		}
+		if js.Jobs[i].Conc > 0 && js.Jobs[i].Mode == "real" && js.Jobs[i].Fn != "SingleDetect" {
+			// overlapping calls of the real workflows (each on its own source): released together, three rounds; the result that
+			// deviates from the first round is kept; the matrix each call must have seen is computed afterwards, one at a time
+			k := i
+			for k < len(js.Jobs) && js.Jobs[k].Conc == js.Jobs[i].Conc && js.Jobs[k].Mode == "real" && js.Jobs[k].Fn != "SingleDetect" {
+				k++
+			}
+			restoreRegistry()
+			group := js.Jobs[i:k]
+			results := make([]map[string]interface{}, len(group))
+			for round := 0; round < 3; round++ {
+				var wg sync.WaitGroup
+				start := make(chan struct{})
+				for g := range group {
+					wg.Add(1)
+					go func(g int) {
+						defer wg.Done()
+						<-start
+						r := runWorkflowLite(&group[g])
+						if results[g] == nil || r["verdict"] != results[g]["verdict"] || r["named"] != results[g]["named"] || r["panic"] != nil {
+							results[g] = r
+						}
+					}(g)
+				}
+				close(start)
+				wg.Wait()
+			}
+			for g, r := range results {
+				if info, ok := fnTable(group[g].Fn); ok && group[g].Stream.Len < 0 {
+					realMatrix(&group[g], info, randomness.TestMethodArr, r)
+				}
 				out.Emit(r)
 			}
 			out.Flush()
